@@ -12,6 +12,9 @@ pub mod shims {
     pub mod scursor {
 //@include frag/scursor_shim.tpl
     }
+    pub mod crc {
+//@include frag/crc_shim.tpl
+    }
 }
 pub mod common {
     pub mod bits {
@@ -29,10 +32,28 @@ pub mod common {
     pub mod serialize {
 //@include frag/common_serialize_basic.tpl
     }
+    pub mod phys {
+//@include frag/phys_shim.tpl
+    }
+    pub mod buffer {
+//@include frag/common_buffer.tpl
+    }
     pub mod frame {
-        use vstd::prelude::*;
-        use crate::types::UnitId;
-//@item rodbus/src/common/frame.rs | FrameDestination
+//@include frag/common_frame_types.tpl
+//@include frag/common_frame_reader.tpl
+//@include frag/common_frame_writer.tpl
+    }
+}
+pub mod tcp {
+    pub mod frame {
+//@include frag/tcp_frame.tpl
+//@include frag/tcp_frame_writer.tpl
+    }
+}
+pub mod serial {
+    pub mod frame {
+//@include frag/serial_frame.tpl
+//@include frag/serial_frame_writer.tpl
     }
 }
 pub mod server {
